@@ -33,10 +33,6 @@ import (
 
 type check struct{}
 
-var debugSigs bool                // DEBUG-ONLY
-var debugCount = map[string]int{} // DEBUG-ONLY
-var debugEx = map[string]string{} // DEBUG-ONLY
-
 func init() { harness.Register(check{}) }
 
 func (check) ID() string { return "C20" }
@@ -319,6 +315,11 @@ func settingsFor(s, tier string) []setting {
 	if isLiteral(s) || (tier == "thorough" && len(s) <= 4) {
 		return allSettings
 	}
+	for _, part := range strings.FieldsFunc(s, func(c rune) bool { return c == '.' || c == '/' }) {
+		if isLiteral(part) {
+			return allSettings
+		}
+	}
 	fixed := setting{65536, false}
 	h := uint32(2166136261)
 	for i := 0; i < len(s); i++ {
@@ -339,7 +340,7 @@ func (check) Cases(tier string) int { return chunkCases(tier) + len(allSettings)
 func (check) Exhaustive(string) bool { return true }
 
 func (check) Rule() string {
-	return "every string of length <= 4 (thorough: <= 5) over the alphabet {- + 0 1 9 x b o _ a}, a table of boundary spellings (m-1, m, m+1, 2m+2 for every MaxIdx m in decimal/sign/0x/0X/0b/0o/legacy-octal/leading-zero/underscore form, -0, +0, 0x, 1e3, 1.0, spaces, non-ASCII digits, -2^63, ...) and 2 seed-chosen longer near-numeric strings per case, each x MaxIdx in {-5,-1,0,1,7,1024,65536} x EnableNumKeys {false,true} x position {whole key without PathSep, whole key with PathSep, first, middle, last dotted segment; thorough also twice, deep-last, middle with '/' separator} x usage {map key (NewFrom), setter name (SetInt), struct tag (reflect.StructOf, NewFrom), getter name on a prepared list+dict config (Has/Int/Remove), struct tag on Unpack into a struct}; a case = 8 strings (stride over the universe) x everything else. The last 14 cases walk the over-limit ladder m+1, 2m+2, 2^16+1, 2^20 and then (only if all of those were names) 2^31, 2^40, 2^63-1, 2^63, 2^64-1 for one (m, e) each. Non-trivial = the string contains a digit (numeric or near-numeric); distinct = distinct (position, string)."
+	return "universe = every string of length <= 4 (thorough: <= 5) over the alphabet {- + 0 1 9 x b o _ a}, every integer literal (strconv.ParseInt base 0 accepts it) one character longer over the same alphabet, and a table of boundary spellings (m-1, m, m+1, 2m+2 for every MaxIdx m in decimal / sign / 0x / 0X / 0b / 0o / legacy-octal / leading-zero / underscore form, -0, +0, 0x, 1e3, 1.0, spaces, non-ASCII digits, -2^63, 2^16+1, 2^20 ...); a case = 8 universe strings (stride) + 2 seed-chosen longer spellings/one-edit look-alikes of small and boundary integers. Each string x position {whole key without PathSep, whole key with PathSep(\".\"), first, middle, last dotted segment; thorough also twice (s.s), deep-last, middle with PathSep(\"/\")} x usage {map key (NewFrom), setter name (SetInt), struct tag (reflect.StructOf + NewFrom), getter name Has/Int/Remove and struct tag on Unpack, both on a prepared config that holds list slot v AND the name s} x setting: integer literals meet all MaxIdx {-5,-1,0,1,7,1024,65536} x EnableNumKeys {false,true}; strings that are no integer literal (names under every setting) meet MaxIdx 65536/false plus one setting chosen by the string (thorough: all 14 up to length 4). The last 14 cases walk, for one (m, e) each, the over-limit ladder m+1, 2m+2, 2^16+1, 2^20 in ascending order and only if all of those were names 2^31, 2^40, 2^63-1, 2^63, 2^64-1 (decimal and 0x). Non-trivial = the string contains a digit (numeric or near-numeric); distinct = distinct (position, string). 'classifications' counts (segment under test, setting, position, usage) role observations."
 }
 
 func (check) Assumptions() []string {
@@ -497,6 +498,7 @@ type deviation struct {
 	detail string
 	pval   string
 	where  string
+	hint   bool // a sibling observation showed the segment treated as an index
 }
 
 type world struct {
@@ -509,6 +511,7 @@ type world struct {
 	capTop      int64
 	capInterior int64
 	sigSeen     map[string]int
+	probeCache  map[[2]int64]bool
 	poss        []position
 
 	// grow hook state (per operation)
@@ -583,7 +586,7 @@ func firstFrame(where string) string {
 
 // sigFor computes the classifier signature from the input predicate and the
 // observed class of deviation.
-func sigFor(sg segment, st setting, single bool, d deviation, devFalse bool) string {
+func (w *world) sigFor(sg segment, st setting, single bool, d deviation, falseOK bool) string {
 	oor := d.obs == "panic" && strings.Contains(d.pval, "out of range")
 	if d.obs == "panic" && (!oor || sg.index) {
 		return "panic:" + firstFrame(d.where)
@@ -595,29 +598,40 @@ func sigFor(sg segment, st setting, single bool, d deviation, devFalse bool) str
 		if d.obs == "name-differs" {
 			return "name-not-roundtripped"
 		}
-		asIndex := d.obs == "index" || d.obs == "hybrid" || d.obs == "grow" || oor
+		// observed as an index: a list appeared / started to grow, a list slot
+		// was read or removed, an index expression panicked, or (hint) a sibling
+		// observation of the same segment under the same setting showed that
+		asIndex := d.obs == "index" || d.obs == "hybrid" || d.obs == "grow" || oor || d.hint
 		switch {
+		case !asIndex && d.obs == "error":
+			return "name-key-rejected"
+		case !asIndex:
+			return "name-not-found"
 		case sg.ok && sg.v < 0:
 			return "negative-literal-treated-as-index"
 		case sg.ok && sg.v > st.m:
 			return "above-max-treated-as-index"
 		case sg.ok:
 			return "enablenumkeys-ignored"
-		case asIndex:
-			return "non-integer-treated-as-index"
 		}
-		return "name-not-found"
+		return "non-integer-treated-as-index"
+	}
+	if d.obs == "error" {
+		return "index-key-rejected"
 	}
 	v10, err10 := strconv.ParseInt(sg.s, 10, 64)
+	plainDecimal := err10 == nil && v10 == sg.v && !strings.HasPrefix(sg.s, "+")
 	switch d.obs {
 	case "name", "name-differs", "manykeys":
 		switch {
-		case st.e && !single && !devFalse:
+		case st.e && !single && falseOK:
+			// the same key under the same MaxIdx is an index with EnableNumKeys(false)
 			return "enablenumkeys-applied-to-multi-segment-key"
+		case !plainDecimal && w.decimalIsIndex(sg.v, st.m):
+			// the plain decimal spelling of the same value is accepted
+			return "non-decimal-literal-treated-as-name"
 		case sg.v == st.m:
 			return "index-equal-max-treated-as-name"
-		case err10 != nil || v10 != sg.v:
-			return "non-decimal-literal-treated-as-name"
 		}
 		return "in-range-index-treated-as-name"
 	case "index-wrong-slot", "grow":
@@ -630,6 +644,30 @@ func sigFor(sg segment, st setting, single bool, d deviation, devFalse bool) str
 		return "literal-parsed-in-wrong-base"
 	}
 	return "index-role-not-observed"
+}
+
+// decimalIsIndex probes (simplest usage: whole-key setter name, no PathSep,
+// EnableNumKeys(false)) whether the plain decimal spelling of v is an index
+// under MaxIdx m. Only used to tell "spelling not recognised" from "value
+// refused" when naming a deviation.
+func (w *world) decimalIsIndex(v, m int64) bool {
+	k := [2]int64{v, m}
+	if r, ok := w.probeCache[k]; ok {
+		return r
+	}
+	sa, sg, sm, st, sb := w.allowed, w.grows, w.maxGrow, w.tripped, w.tripB
+	w.arm(int(v) + 1)
+	isA := false
+	harness.Safe(func() {
+		c := ucfg.New()
+		if err := c.SetInt(strconv.FormatInt(v, 10), -1, 1, ucfg.MaxIdx(m), ucfg.EnableNumKeys(false)); err == nil {
+			isA = c.IsArray() && !c.IsDict()
+		}
+	})
+	w.res.Eval(1)
+	w.allowed, w.grows, w.maxGrow, w.tripped, w.tripB = sa, sg, sm, st, sb
+	w.probeCache[k] = isA
+	return isA
 }
 
 // capped: harness.R keeps 3 violations per signature and case; beyond that
@@ -662,7 +700,7 @@ func describeSegs(segs []segment) string {
 	return strings.Join(l, ", ")
 }
 
-func (w *world) report(usage string, pos position, key string, st setting, segs []segment, d deviation, devFalse bool) (wrongIndex bool) {
+func (w *world) report(usage string, pos position, key string, st setting, segs []segment, d deviation, falseOK bool) (wrongIndex bool) {
 	i := d.at
 	if i >= len(segs) {
 		i = len(segs) - 1
@@ -670,11 +708,7 @@ func (w *world) report(usage string, pos position, key string, st setting, segs 
 	// attribute to the first segment whose predicate can explain the class
 	sg := segs[i]
 	single := len(segs) == 1
-	sig := sigFor(sg, st, single, d, devFalse)
-	if debugSigs {
-		debugCount[sig+"|"+usage+"|"+d.obs+"|"+pos.name+"|"+fmt.Sprint(st.e)]++
-		debugEx[sig+"|"+usage+"|"+d.obs+"|"+pos.name+"|"+fmt.Sprint(st.e)] = fmt.Sprintf("%q %s %s", key, st, d.detail+d.pval)
-	}
+	sig := w.sigFor(sg, st, single, d, falseOK)
 	if w.capped(sig) {
 		return treatedAsIndex(sg, d)
 	}
@@ -850,7 +884,7 @@ func (w *world) childCheck(c *ucfg.Config, segs []segment, usage, key string, po
 }
 
 // builder runs one building usage and classifies the outcome.
-func (w *world) builder(u int, pos position, key string, st setting, segs []segment, T reflect.Type, devFalse bool) (deviated, wrongIndex bool) {
+func (w *world) builder(u int, pos position, key string, st setting, segs []segment, T reflect.Type, falseOK bool) (deviated, wrongIndex bool) {
 	usage := useName[u]
 	allowed := 0
 	for _, sg := range segs {
@@ -878,7 +912,7 @@ func (w *world) builder(u int, pos position, key string, st setting, segs []segm
 		}
 	})
 	w.res.Eval(1)
-	w.res.Ev("classifications", int64(len(segs)))
+	w.res.Ev("classifications", int64(len(segs)-len(pos.prefix)-len(pos.suffix)))
 	w.res.Ev("grow_events", int64(w.grows))
 	slots := w.maxGrow
 	limit := int(st.m) + 1
@@ -942,14 +976,18 @@ func (w *world) builder(u int, pos position, key string, st setting, segs []segm
 			slots = ml
 		}
 	}
-	if slots > limit {
-		w.res.Violate("list-longer-than-max+1", "%s %q (%s, PathSep=%q, %s): a single key produced a list of %d slots, more than MaxIdx+1 = %d", usage, key, pos.name, pos.sep, st, slots, limit)
+	if slots > limit && !w.capped("list-longer-than-max+1") {
+		how := "produced"
+		if w.tripped {
+			how = "made the library start growing (aborted by the monitor)"
+		}
+		w.res.Violate("list-longer-than-max+1", "%s %q (%s, PathSep=%q, %s): a single key %s a list of %d slots, more than MaxIdx+1 = %d", usage, key, pos.name, pos.sep, st, how, slots, limit)
 	}
 	if slots == limit && limit > 0 {
 		w.res.SetAdd("list_reached_max_plus_1", fmt.Sprintf("m=%d", st.m))
 	}
 	if dev != nil {
-		wrongIndex = w.report(usage, pos, key, st, segs, *dev, devFalse)
+		wrongIndex = w.report(usage, pos, key, st, segs, *dev, falseOK)
 		return true, wrongIndex
 	}
 	for _, sg := range segs {
@@ -1027,8 +1065,15 @@ func nest(names []string, x int64) interface{} {
 // a config that has BOTH list slots [.., 100+hv, 101+hv] and the dictionary
 // entry s -> 7 (below the suffix names), wrapped in the prefix names.
 func (w *world) prepare(s string, prefix, suffix []string) (hy hybrid, ok bool) {
+	// the list part holds slot hv (and hv+1) where hv is the value of s as an
+	// integer literal, or its base-10 reading if it is none ("09", "0029"), so
+	// that a wrong reading as an index is visible as such
 	hv := int64(-1)
-	if v, err := strconv.ParseInt(s, 0, 64); err == nil && v >= 0 && v <= 65536 {
+	if v, err := strconv.ParseInt(s, 0, 64); err == nil {
+		if v >= 0 && v <= 65536 {
+			hv = v
+		}
+	} else if v, err := strconv.ParseInt(s, 10, 64); err == nil && v >= 0 && v <= 65536 {
 		hv = v
 	}
 	hy.hv = hv
@@ -1083,12 +1128,8 @@ func (w *world) prepare(s string, prefix, suffix []string) (hy hybrid, ok bool) 
 	return hy, ok
 }
 
-func (w *world) getterDeviation(op string, pos position, key string, st setting, sg segment, single bool, d deviation, devFalse bool) bool {
-	sig := sigFor(sg, st, single, d, devFalse)
-	if debugSigs {
-		debugCount[sig+"|"+op+"|"+d.obs+"|"+pos.name+"|"+fmt.Sprint(st.e)]++
-		debugEx[sig+"|"+op+"|"+d.obs+"|"+pos.name+"|"+fmt.Sprint(st.e)] = fmt.Sprintf("%q %s %s", key, st, d.detail+d.pval)
-	}
+func (w *world) getterDeviation(op string, pos position, key string, st setting, sg segment, single bool, d deviation, falseOK bool) bool {
+	sig := w.sigFor(sg, st, single, d, falseOK)
 	if w.capped(sig) {
 		return treatedAsIndex(sg, d)
 	}
@@ -1117,10 +1158,11 @@ func (w *world) getters(pos position, s, key string, sts []setting, T reflect.Ty
 		w.res.Ev("prepared_config_unbuildable", 1)
 		return false
 	}
-	var devFalse [4]bool
+	// per usage: 0 = EnableNumKeys(false) not run for this MaxIdx, 1 = agreed, 2 = deviated
+	var fstate [3]int8
 	for i, st := range sts {
 		if i == 0 || sts[i-1].m != st.m {
-			devFalse = [4]bool{}
+			fstate = [3]int8{}
 		}
 		sg := classify(s, st, single)
 		opts := st.opts(pos.sep)
@@ -1162,14 +1204,19 @@ func (w *world) getters(pos position, s, key string, sts []setting, T reflect.Ty
 				d = &deviation{obs: cl, detail: "Int " + det}
 			}
 		}
+		asIdxSeen := false
 		if d != nil {
-			if w.getterDeviation("Has/Int", pos, key, st, sg, single, *d, devFalse[0]) {
+			if w.getterDeviation("Has/Int", pos, key, st, sg, single, *d, fstate[0] == 1) {
 				wrongIndex = true
+				asIdxSeen = true
 			}
 			if !st.e {
-				devFalse[0] = true
+				fstate[0] = 2
 			}
 		} else {
+			if !st.e {
+				fstate[0] = 1
+			}
 			w.res.SetAdd("confirmed", "getter-name/"+pos.name)
 			w.res.Ev("getter_roles_confirmed", 1)
 		}
@@ -1200,13 +1247,18 @@ func (w *world) getters(pos position, s, key string, sts []setting, T reflect.Ty
 				d = &deviation{obs: cl, detail: "field " + det}
 			}
 			if d != nil {
-				if w.getterDeviation("Unpack-into-struct-tag", pos, key, st, sg, single, *d, devFalse[1]) {
+				d.hint = asIdxSeen && (d.obs == "missing" || d.obs == "not-removed")
+				if w.getterDeviation("Unpack-into-struct-tag", pos, key, st, sg, single, *d, fstate[1] == 1) {
 					wrongIndex = true
+					asIdxSeen = true
 				}
 				if !st.e {
-					devFalse[1] = true
+					fstate[1] = 2
 				}
 			} else {
+				if !st.e {
+					fstate[1] = 1
+				}
 				w.res.SetAdd("confirmed", "struct-tag-unpack/"+pos.name)
 				w.res.Ev("unpack_tag_roles_confirmed", 1)
 			}
@@ -1252,13 +1304,17 @@ func (w *world) getters(pos position, s, key string, sts []setting, T reflect.Ty
 				d = &deviation{obs: obs, detail: det}
 			}
 			if d != nil {
-				if w.getterDeviation("Remove", pos, key, st, sg, single, *d, devFalse[2]) {
+				d.hint = asIdxSeen && (d.obs == "missing" || d.obs == "not-removed")
+				if w.getterDeviation("Remove", pos, key, st, sg, single, *d, fstate[2] == 1) {
 					wrongIndex = true
 				}
 				if !st.e {
-					devFalse[2] = true
+					fstate[2] = 2
 				}
 			} else {
+				if !st.e {
+					fstate[2] = 1
+				}
 				w.res.SetAdd("confirmed", "remove-name/"+pos.name)
 				w.res.Ev("remove_roles_confirmed", 1)
 			}
@@ -1314,10 +1370,10 @@ func (w *world) runString(s string, sts []setting) (wrongIndex bool) {
 		if tagSafe(key) {
 			T = structType(key)
 		}
-		var devFalse [3]bool
+		var fstate [3]int8 // see getters
 		for i, st := range sts {
 			if i == 0 || sts[i-1].m != st.m {
-				devFalse = [3]bool{}
+				fstate = [3]int8{}
 			}
 			segs := expect(key, pos.sep, st)
 			for _, sg := range segs {
@@ -1344,9 +1400,12 @@ func (w *world) runString(s string, sts []setting) (wrongIndex bool) {
 					w.res.Ev("skipped_large_interior_index", 1)
 					continue
 				}
-				dev, wi := w.builder(u, pos, key, st, segs, T, devFalse[u])
-				if dev && !st.e {
-					devFalse[u] = true
+				dev, wi := w.builder(u, pos, key, st, segs, T, fstate[u] == 1)
+				if !st.e {
+					fstate[u] = 1
+					if dev {
+						fstate[u] = 2
+					}
 				}
 				if wi {
 					wrongIndex = true
@@ -1435,6 +1494,8 @@ func (check) Run(seed int64, tier string, idx int, verbose bool) harness.Result 
 		w.capTop, w.capInterior = 1024, 1024
 	}
 	w.sigSeen = map[string]int{}
+	w.probeCache = map[[2]int64]bool{}
+	w.probeCache = map[[2]int64]bool{}
 	w.arm(1 << 17)
 	ucfg.VerifSetHook(w.hook)
 	defer ucfg.VerifSetHook(nil)
